@@ -275,8 +275,10 @@ class Property(Entity):
         vtype = self._check_new_value_types(vals)
         if vtype == DataType.String:
             vals = [ensure_text(v) for v in vals]  # py2compat
-        self._h5dataset.shape = np.shape(vals)
+        # convert first: values that cannot be stored (an integer beyond 64
+        # bit) are refused before the stored values are resized
         data = np.array(vals, dtype=vtype)
+        self._h5dataset.shape = np.shape(vals)
         self._h5dataset.write_data(data)
 
     def extend_values(self, data):
